@@ -52,9 +52,8 @@ def parseFirst (tok : List Nat) : First :=
     if c = 35 then (match parseNat rest with | some t => .time t | none => .bad)
     else if oneBitChars.contains c then .oneBit
     else if multiBitChars.contains c then .multiBit
-    else if tok = kwDumpall then .time 0
     else if tok = kwComment then .commentStart
-    else if tok = kwDumpvars ∨ tok = kwEnd ∨ tok = kwDumpoff ∨ tok = kwDumpon then .ignored
+    else if tok = kwDumpvars ∨ tok = kwDumpall ∨ tok = kwEnd ∨ tok = kwDumpoff ∨ tok = kwDumpon then .ignored   -- `$dumpall` too (fix F24)
     else .bad
 
 inductive St | skipNl | first | idTok | lookEnd
@@ -131,8 +130,13 @@ def run (stop : Option Nat) (m : M) : List Nat → Out
     | .exit evs => .ok evs
     | .error evs => .err evs
 
+/-- initial state. The code always starts in `SkippingNewLine` (both branches of its `if starts_on_new_line` are identical:
+every stream skips its first line, which belongs to the predecessor chunk — for the first chunk this is finding F5a);
+`startsNl = true` is the start state a stream would have if it were parsed from its first byte (kept for the theorems). -/
+def initM (startsNl : Bool) : M := { st := if startsNl then .first else .skipNl }
+
 /-- `parse_body` on a byte stream -/
-def parseBody (stop : Option Nat) (bs : List Nat) : Out := run stop {} bs
+def parseBody (stop : Option Nat) (bs : List Nat) (startsNl : Bool := false) : Out := run stop (initM startsNl) bs
 
 /-! ### identifier codes -/
 
@@ -253,8 +257,9 @@ def applyEvs (c : Codec) (d : Decls) (rm : RealMap) (v : VEnc) : List Ev → Opt
     | some v' => applyEvs c d rm v' r
 
 /-- `read_single_stream_of_values` -/
-def readStream (c : Codec) (d : Decls) (rm : RealMap) (stream : List Nat) (stop : Option Nat) (isFirst : Bool) : Res Enc :=
-  let out := parseBody stop stream
+def readStream (c : Codec) (d : Decls) (rm : RealMap) (stream : List Nat) (stop : Option Nat) (isFirst : Bool)
+    (startsNl : Bool := false) : Res Enc :=
+  let out := parseBody stop stream startsNl
   let evs := match out with | .ok e => e | .err e => e
   match applyEvs c d rm { enc := newEnc d.sigTypes, isFirst := isFirst } evs with
   | none => .panic
@@ -274,6 +279,9 @@ inductive Mode
   | reader (fileLen : Nat)         -- stream path: stop = whole file length
   | multi (threads minChunk : Nat)
   | singleChecked                  -- as `single`, built with overflow checks
+
+/-- does the chunk at `start` begin on a new line? (`read_values`: the first chunk does, others when the byte before is LF) -/
+def chunkStartsNl (body : List Nat) (start : Nat) : Bool := start = 0 || body.getD (start - 1) 0 == 10
 
 /-- `read_body` / `read_values`: the final encoder, or err / panic -/
 def readValues (c : Codec) (d : Decls) (rm : RealMap) (body : List Nat) : Mode → Res Enc
@@ -344,9 +352,10 @@ def interpT (trailing : Bool) : TSt → List (List Nat) → List Ev → Out
 
 def endsWs (bs : List Nat) : Bool := match bs.getLast? with | some b => isWs b | none => true
 
-/-- tokens on the line of `$enddefinitions $end` are skipped (this is what the code does: F5a) -/
-def tokenSpec (bs : List Nat) : Out :=
-  let body := dropLine bs
+/-- the token-level meaning of a stream: the tokens after its first line break (what the code does: tokens on the line of
+`$enddefinitions $end` are skipped, F5a), or all its tokens (`startsNl`) -/
+def tokenSpec (bs : List Nat) (startsNl : Bool := false) : Out :=
+  let body := if startsNl then bs else dropLine bs
   interpT (endsWs body) .first (splitWs body) []
 
 /-! ### hand-over safety (the hypothesis of `mt_eq_st`; its negation is the known-finding class FMT) -/
